@@ -376,7 +376,8 @@ def validate_translation(var, work, seed, nruns=24):
 
 # ---------------------------------------------------------------------------- SMT units (ll2smt)
 class SmtEntry:
-    def __init__(self, name, mode="FP", int_mode="BV", timeout_ms=30000, desc="", approx_err=None, max_paths=512, witness=True, wall=900, underflow_check=True):
+    def __init__(self, name, mode="FP", int_mode="BV", timeout_ms=30000, desc="", approx_err=None, max_paths=512, witness=True, wall=900, underflow_check=True, abstract_words=False):
+        self.abstract_words = abstract_words
         self.underflow_check = underflow_check
         self.name, self.mode, self.int_mode, self.timeout_ms, self.desc = name, mode, int_mode, timeout_ms, desc
         self.approx_err, self.max_paths, self.witness, self.wall = approx_err, max_paths, witness, wall
@@ -420,6 +421,8 @@ class SmtUnit:
             env = dict(os.environ)
             if not e.underflow_check:
                 env["VP_NO_UNDERFLOW_CHECK"] = "1"
+            if e.abstract_words:
+                env["VP_ABSTRACT_WORDS"] = "1"
             futs.append((e, pool.submit(run, cmd, e.wall, env)))
         rep.stubs.extend(self.stubs)
         rep.assumptions.extend(self.assumptions)
